@@ -34,7 +34,9 @@ RULE = ("histories of 1-10 operations over charts of the five games (0-12 hits, 
         "operation of the model's table is drawn (filters/sort/append/move/copy on all 24 list classes, rate, 17 converter "
         "entry points, 4 writers, full_ln, hitsound_copy, sv_normalize, scroll_speed, dominant_bpm, Pattern.from_note_lists/"
         "group/combinations, two sharing operations as negative controls; `append` is given a list of the same class, any other "
-        "list of the pool, a cut-down list or a hand-made DataFrame, all snapshotted as arguments); distinct = distinct canonical JSON; non-trivial = "
+        "list of the pool, a cut-down list or a hand-made DataFrame, all snapshotted as arguments; lists are built from a frame, "
+        "by `from_dict` or by `empty`+assignment; 45% of the steps take the newest compatible object of the pool, i.e. "
+        "second-generation inputs; the class-level list defaults of `_props` are cells of the heap from the start); distinct = distinct canonical JSON; non-trivial = "
         "at least one call returned and its arguments held at least one non-empty frame")
 ASSUMPTIONS = [
     "effect signatures are observed, not proved: the theorems are about any behaviour within the table's signatures, the "
@@ -178,7 +180,7 @@ def gen_list(rng, game, slot, keys, n, flags=None):
     if game == "o2jam" and slot in ("hits", "holds") and rng.random() < 0.5:
         d["volume"] = [rng.randrange(0, 16) for _ in range(n)]
         d["pan"] = [rng.randrange(0, 16) for _ in range(n)]
-    return dict(cols=d, labels=gen_labels(rng, n))
+    return dict(cols=d, labels=gen_labels(rng, n), build=rng.choice(["frame", "frame", "frame", "from_dict", "from_dict", "empty"]))
 
 
 def gen_map(rng, game, keys, small=False, large=False):
@@ -318,7 +320,9 @@ def gen_step(rng, op, game):
                  typ=rng.random() < 0.3)
     elif op in ("conv.OsuToBMS.convert", "conv.QuaToBMS.convert", "conv.O2JToBMS.convert"):
         a = dict(move=rng.choice([0, 1]))
-    return dict(op=op, src=rng.randrange(0, 64), other=rng.randrange(0, 64), args=a)
+    # `recent`: take the newest compatible object of the pool (a result of an earlier step: second-generation inputs —
+    # full_ln of full_ln, convert of converted, rate of rated), else any compatible one
+    return dict(op=op, src=rng.randrange(0, 64), other=rng.randrange(0, 64), recent=rng.random() < 0.45, args=a)
 
 
 def gen(rng, tier, i):
@@ -368,8 +372,8 @@ def _h(game, keys, maps, steps, setmeta=None):
     return dict(claim="history", game=game, keys=keys, maps=maps, setmeta=setmeta or {}, steps=steps)
 
 
-def _st(op, src=0, other=0, **args):
-    return dict(op=op, src=src, other=other, args=args)
+def _st(op, src=0, other=0, recent=False, **args):
+    return dict(op=op, src=src, other=other, recent=recent, args=args)
 
 
 def _lst(cols, labels="range"):
@@ -423,6 +427,18 @@ def corpus():
     c.append(_h("quaver", 4, [qua], [_st("alg.sv_normalize", override=None), _st("conv.QuaToOsu.convert"), _st("map.rate", by=0.5),
                                       _st("write.quaver"), _st("list.after", src=0, offset=100, include_end=False, flag=False),
                                       _st("map.deepcopy"), _st("conv.QuaToSM.convert"), _st("conv.QuaToBMS.convert", move=0)]))
+    # second-generation inputs and lists built by the public constructors (from_dict fills the list-valued default)
+    quad = dict(lists=dict(hits=dict(cols=dict(offset=[0, 250, 500, 900], column=[0, 1, 0, 1]), labels="range", build="from_dict"),
+                           holds=dict(cols=dict(offset=[100, 700], column=[3, 2], length=[400, 50]), labels="range", build="from_dict"),
+                           bpms=dict(cols=dict(offset=[0], bpm=[150]), labels="range", build="from_dict"),
+                           svs=dict(cols=dict(offset=[0], multiplier=[0.5]), labels="range", build="empty")),
+                meta=dict(title="q", mode="Keys4", tags=["p"]))
+    c.append(_h("quaver", 4, [quad], [_st("alg.full_ln", gap=150, thres=100), _st("alg.full_ln", recent=True, gap=50, thres=25),
+                                       _st("map.rate", recent=True, by=2), _st("map.rate", recent=True, by=0.5),
+                                       _st("conv.QuaToOsu.convert", recent=True), _st("conv.OsuToQua.convert", recent=True),
+                                       _st("alg.full_ln", recent=True, gap=150, thres=100), _st("list.after", src=0, offset=100, include_end=True, flag=False),
+                                       _st("list.deepcopy", src=0)]))
+    c.append(_h("quaver", 4, [qua], [_st("alg.full_ln", gap=150, thres=100), _st("alg.full_ln", recent=True, gap=150, thres=100)]))
     sm = dict(lists=dict(hits=_lst(dict(offset=[0, 500, 1000], column=[0, 1, 2])), holds=_lst(dict(offset=[250], column=[3], length=[250])),
                          bpms=_lst(dict(offset=[0, 2000], bpm=[120, 240])), fakes=_lst(dict(offset=[], column=[])),
                          lifts=_lst(dict(offset=[], column=[])), keysounds=_lst(dict(offset=[], column=[])),
@@ -464,6 +480,8 @@ def valid(case):
                 if l["labels"] != "range" and (len(l["labels"]) != n or len(set(l["labels"])) != n):
                     return False
                 if slot == "bpms" and n == 0:
+                    return False
+                if l.get("build", "frame") not in ("frame", "from_dict", "empty"):
                     return False
                 if "bpm" in l["cols"] and any((not isinstance(b, (int, float))) or b <= 0 for b in l["cols"]["bpm"]):
                     return False
@@ -514,10 +532,22 @@ def build_list(cls, spec):
             data[c] = s
         else:
             data[c] = pd.Series(np.asarray(vals, dtype=dt) if n else np.asarray([], dtype=dt))
-    df = pd.DataFrame(data, columns=list(proto.columns))
+    how = spec.get("build", "frame")
+    if how == "from_dict" and n > 0:
+        # the public constructor: only the columns the case names are given, the class fills in the rest
+        given = {c: data[c].tolist() for c in proto.columns if c in spec["cols"]}
+        tl = cls.from_dict(given)
+    elif how == "empty":
+        # the way the converters build lists: `empty(n)` then column assignment
+        tl = cls.empty(n)
+        for c in proto.columns:
+            if c in spec["cols"]:
+                setattr(tl, c, data[c].to_numpy() if data[c].dtype != object else data[c].tolist())
+    else:
+        tl = cls(pd.DataFrame(data, columns=list(proto.columns)))
     if spec["labels"] != "range":
-        df.index = pd.Index(list(spec["labels"]), dtype="int64")
-    return cls(df)
+        tl.df.index = pd.Index(list(spec["labels"]), dtype="int64")
+    return tl
 
 
 def build_map(game, spec):
@@ -551,7 +581,23 @@ def build_pool(case):
         pool.append(dict(kind="mapset", game=game, obj=s))
     for m in maps:
         pool.append(dict(kind="map", game=game, obj=m))
+    pool.append(dict(kind="globals", game=game, obj=class_defaults()))
     return pool
+
+
+def class_defaults():
+    """mutable state that exists before any call and that every later call can reach: the list/dict-valued defaults in
+    the item classes' `_props` (e.g. Quaver `keysounds=["object", []]`), by class and property.  They are cells of the
+    heap from the start, so a result whose rows hold such an object shares with the heap before the call."""
+    out = {}
+    for g in GAMES:
+        k = K(g)
+        for cls in list(k["lists"].values()) + list(k["extra"].values()):
+            item = cls._item_class()
+            for name, spec in getattr(item, "_props", {}).items():
+                if isinstance(spec, (list, tuple)) and len(spec) > 1 and isinstance(spec[1], (list, dict, set)):
+                    out[f"{item.__name__}.{name}"] = spec[1]
+    return out
 
 
 # ============================================================================================ walking, snapshots
@@ -848,8 +894,10 @@ def list_operands(pool):
     return out
 
 
-def pick(xs, i):
-    return xs[i % len(xs)] if xs else None
+def pick(xs, i, recent=False):
+    if not xs:
+        return None
+    return xs[-1] if recent else xs[i % len(xs)]
 
 
 class Skip(Exception):
@@ -867,7 +915,7 @@ def prepare_call(step, pool):
         ls = list_operands(pool)
         if not ls:
             raise Skip()
-        game, tl = pick(ls, step["src"])
+        game, tl = pick(ls, step["src"], step.get("recent", False))
         hold = hasattr(tl, "tail_offset")
         lst = lambda r: [dict(kind="list", game=game, obj=r)]
         if op == "list.after":
@@ -928,7 +976,7 @@ def prepare_call(step, pool):
         ms = [e for e in maps() if games is None or e["game"] in games]
         if not ms:
             raise Skip()
-        return pick(ms, step["src"])
+        return pick(ms, step["src"], step.get("recent", False))
 
     if op == "map.deepcopy":
         e = map_of()
@@ -940,7 +988,7 @@ def prepare_call(step, pool):
         ss = sets()
         if not ss:
             raise Skip()
-        e = pick(ss, step["src"])
+        e = pick(ss, step["src"], step.get("recent", False))
         f = (lambda: e["obj"].deepcopy()) if op == "mapset.deepcopy" else (lambda: e["obj"].rate(a["by"]))
         return [e["obj"]], f, lambda r: set_entries(e["game"], r)
     if op == "alg.full_ln":
@@ -953,7 +1001,7 @@ def prepare_call(step, pool):
         ms = maps("osu")
         if not ms:
             raise Skip()
-        s, t = pick(ms, step["src"]), pick(ms, step["other"])
+        s, t = pick(ms, step["src"], step.get("recent", False)), pick(ms, step["other"])
         return [s["obj"], t["obj"]], (lambda: hitsound_copy(s["obj"], t["obj"])), lambda r: [dict(kind="map", game="osu", obj=r)]
     if op == "alg.sv_normalize":
         from reamber.algorithms.generate.sv_normalize import sv_normalize
@@ -974,7 +1022,7 @@ def prepare_call(step, pool):
             ss = sets("sm")
             if not ss:
                 raise Skip()
-            e = pick(ss, step["src"])
+            e = pick(ss, step["src"], step.get("recent", False))
         else:
             e = map_of((g,))
         return [e["obj"]], (lambda: e["obj"].write()), lambda r: [dict(kind="value", game=g, obj=r)]
@@ -987,7 +1035,7 @@ def prepare_call(step, pool):
             ss = sets(g)
             if not ss:
                 raise Skip()
-            e = pick(ss, step["src"])
+            e = pick(ss, step["src"], step.get("recent", False))
         else:
             e = map_of((g,))
         tgt = conv_target(cname)
@@ -1006,7 +1054,7 @@ def prepare_call(step, pool):
         ps = [e for e in pool if e["kind"] == "pattern"]
         if not ps:
             raise Skip()
-        e = pick(ps, step["src"])
+        e = pick(ps, step["src"], step.get("recent", False))
         return [e["obj"]], (lambda: e["obj"].group(v_window=a["v"], h_window=a["h"], avoid_jack=a["jack"])), \
             lambda r: [dict(kind="groups", game=e["game"], obj=r, keys=None)]
     if op == "ptn.combinations":
@@ -1017,7 +1065,7 @@ def prepare_call(step, pool):
         gs = [e for e in pool if e["kind"] == "groups"]
         if not gs:
             raise Skip()
-        e = pick(gs, step["src"])
+        e = pick(gs, step["src"], step.get("recent", False))
         size = a["size"]
         kw = dict(size=size, make_size2=a["size2"])
         if a["chord"]:
@@ -1154,6 +1202,24 @@ def observe(case):
                 if q not in ret and is_leaf(oq) and aliased(heap.objs[r], oq):
                     ret.append(q)
                     alias.append(q)
+        # cell objects (lists / dicts inside object columns) of the result that are cells of the heap already — the
+        # class-level defaults — make that old cell reachable from the result; one object in several rows is tagged
+        for r in res_cells:
+            o = heap.objs[r]
+            if r < n or not is_leaf(o):
+                continue
+            ids = []
+            for buf in buffers(o):
+                if buf.dtype == object:
+                    for v in buf.reshape(-1).tolist():
+                        if isinstance(v, (list, dict, set)):
+                            ids.append(id(v))
+                            q = heap.by_id.get(id(v))
+                            if q is not None and q < n and q not in ret:
+                                ret.append(q)
+                                alias.append(q)
+            if len(set(ids)) < len(ids):
+                tags.append("rows-share-cell-object")
         after_all = snap()
         sig = _TABLE.get(op)
         ev = dict(sig=op, step=si, args=arg_cells, n=n, before=before, after=after_all[:n], news=after_all[n:], ret=ret,
